@@ -41,6 +41,18 @@ CLAIMED = {
              "tools/ref/synth.py frame builder; extraction/driver.",
         technique="Coq proof (mod-65535 arithmetic with lia + Euclidean hooks, word-splitting lemmas) + boundary-steered correspondence",
         design="3 C11"),
+    "C15": dict(
+        text="Proof: Coq theorems, for EVERY instance C of the crypto primitives (no law assumed): C15_tls12 / C15_tls10_11 / C15_ssl30 -- the MAC keys, keys and "
+             "(where the RFC defines a non-empty one) IVs that the model of Session.generate_keys installs from a CLIENT_RANDOM line are the RFC 5246 6.3 partition, "
+             "with the lengths the suite's IANA name denotes, of the RFC key block PRF(ms, 'key expansion', server_random + client_random) (P_hash given as the RFC's "
+             "unbounded iteration; C15_p_hash_unique shows the block is unique); C15_tls13 (each key/iv = HKDF-Expand-Label of the last key-log line with that label); "
+             "C15_quic_initial (v1 salt, any DCID length), C15_quic_key_update ('quic ku', hp untouched); C15_source_constants ties labels/salts regenerated from "
+             "the source to the model. All closed under the global context. Model tied to key_derivator.py / quic_key_generation.py / generate_keys by "
+             "correspondence with the real cryptography library behind the model's Crypto record (pipe oracle), on keys read from the real decryptor objects.",
+        note="Trusted: Coq kernel; Spec/RfcKeys.v as a transcription of RFC 6101/2246/5246/8446/9001 (twin rfc_keys_ref.py on hashlib); master secret 48 bytes (even length "
+             "needed for the TLS 1.0 S1/S2 split); RSA/pre-master branches modelled but not claimed; extraction, OCaml driver and the crypto pipe oracle for the correspondence.",
+        technique="Coq proof (loop invariants over the RFC's P_hash stream, slice algebra, case analysis over cipher classes) + oracle-backed correspondence on installed keys",
+        design="3 C15"),
 }
 
 NOT_YET = "not claimed yet in this revision: model and theorems under construction (see DESIGN.md section 7)"
